@@ -13,6 +13,7 @@ import (
 	"testing"
 	"time"
 
+	"github.com/pion/webrtc/v4"
 	"pgregory.net/rapid"
 
 	"github.com/jech/galene/group"
@@ -178,6 +179,38 @@ func TestVerif_C12_SignallingFuzz(t *testing.T) {
 			}
 			if rapid.IntRange(0, 2).Draw(t, "withRequest") == 0 {
 				m.Request = anyValue(t, "request")
+			}
+			// every other field a client can put in a message, whatever its type
+			if m.Type == "ice" || rapid.IntRange(0, 5).Draw(t, "withCandidate") == 0 {
+				if rapid.IntRange(0, 4).Draw(t, "candidateNull") != 0 {
+					cand := rapid.SampledFrom([]string{"", "garbage", "candidate:1 1 udp 2130706431 192.0.2.1 12345 typ host", "candidate:x x x x x x typ"}).Draw(t, "candidate")
+					ci := webrtc.ICECandidateInit{Candidate: cand}
+					if rapid.Bool().Draw(t, "mid") {
+						mid := rapid.SampledFrom([]string{"0", "", "nosuchmid"}).Draw(t, "sdpMid")
+						ci.SDPMid = &mid
+					}
+					if rapid.Bool().Draw(t, "mline") {
+						ml := uint16(rapid.SampledFrom([]int{0, 1, 65535}).Draw(t, "mlineIndex"))
+						ci.SDPMLineIndex = &ml
+					}
+					m.Candidate = &ci
+				}
+			}
+			if rapid.IntRange(0, 3).Draw(t, "strayFields") == 0 {
+				m.Privileged = rapid.Bool().Draw(t, "privileged")
+				m.Permissions = rapid.SampledFrom([][]string{nil, {"op"}, {"system"}, {""}}).Draw(t, "permsField")
+				m.Error = rapid.SampledFrom([]string{"", "some error"}).Draw(t, "errorField")
+				m.Time = rapid.SampledFrom([]string{"", "yesterday", "2040-01-01T00:00:00Z"}).Draw(t, "timeField")
+				m.Version = rapid.SampledFrom([][]string{nil, {"2"}, {"1", "2", "999"}, {""}}).Draw(t, "versionField")
+				if rapid.Bool().Draw(t, "dataField") {
+					m.Data = map[string]any{"k": anyValue(t, "dataValue")}
+				}
+				if rapid.Bool().Draw(t, "statusField") {
+					m.Status = &group.Status{Name: "x", Locked: true}
+				}
+				if rapid.Bool().Draw(t, "rtcConf") {
+					m.RTCConfiguration = &webrtc.Configuration{}
+				}
 			}
 			if m.Type == "offer" || m.Type == "answer" {
 				m.SDP = rapid.SampledFrom(sdps).Draw(t, "sdp")
